@@ -279,6 +279,7 @@ CLAUSES = {
     "bpm": run_bpm,
     "vlq_inverse": run_vlq_inverse,
     "corrupt": run_corrupt,
+    "tick_counts": run_roundtrip,
 }
 
 
@@ -372,6 +373,49 @@ def gen_deviations(shard):
         yield {"comp": Z.program_from_assignment(a, Z.PATTERNS_WHOLE), "bpm": a["bpm"]}
 
 
+def gen_tick_counts(shard):
+    """every whole tick count t of the shard as the value 288.0 / t: a note, a rest and a chord of that length"""
+    for t in shard:
+        beats = max(1, -(-3 * t // 72))
+        for first in ("N", "R"):
+            pat = [(first, ["ticks", t]), ("R" if first == "N" else "M", ["ticks", t]), ("CH", ["ticks", t])]
+            yield {"comp": {"tracks": [{"name": "t%d" % t, "instrument": None,
+                                        "bars": [Z.bar_recipe(pat, key="C", meter=(beats, 4))]}]}, "bpm": 120}
+
+
+def run_format_words(case):
+    """case = high byte: the 256 format words with that high byte; only 0, 1, 2 are MIDI formats."""
+    S = engine.S
+    hi = case
+    comp = Z.build_composition({"tracks": [_comp_track(0)]})
+    with Z.midi_dir("verif-c17-") as d:
+        path = os.path.join(d, "good.mid")
+        MFO.write_Composition(path, comp, 120)
+        with open(path, "rb") as fh:
+            data = fh.read()
+        p = os.path.join(d, "fmt.mid")
+        for lo in range(256):
+            fmt = hi * 256 + lo
+            blob = data[:8] + fmt.to_bytes(2, "big") + data[10:]
+            with open(p, "wb") as fh:
+                fh.write(blob)
+            S.trans(1)
+            try:
+                res = MFI.MIDI_to_Composition(p)
+            except Exception as e:                                  # noqa -- any error is a rejection
+                if fmt <= 2:
+                    S.problem("MIDI_to_Composition(format := %d)" % fmt, "read as music", "%s: %s" % (type(e).__name__, e))
+                S.count("format_words_rejected")
+                continue
+            if fmt > 2:
+                S.problem("MIDI_to_Composition(format := 0x%04x)" % fmt, "an exception", "returned %r" % (res,),
+                          detail={"corruption": "format word %d" % fmt})
+    S.outcome(hi)
+
+
+CLAUSES["format_words"] = run_format_words
+
+
 def gen_keys_meters(shard):
     key = shard
     for meter in Z.METERS:
@@ -456,6 +500,13 @@ def explore(ctx):
     if ctx.want("names_instruments"):
         ctx.bound("names_instruments", "instrument numbers 0..127 x names (lengths 0, 1, .., 127, 128, 200, 16384)")
         ctx.product("names_instruments", list(range(128)), gen_names_instruments)
+    if ctx.want("tick_counts"):
+        tmax = ctx.pick(576, 1152)
+        ctx.bound("tick_counts", "every whole tick count 1..%d as the float value 288.0/t (note, rest, chord; leading note / leading rest)" % tmax)
+        ctx.product("tick_counts", [list(range(1 + i, tmax + 1, 16)) for i in range(16)], gen_tick_counts)
+    if ctx.want("format_words"):
+        ctx.bound("format_words", "all 65536 values of the 16-bit format word of a valid file")
+        ctx.product("format_words", list(range(256)), lambda hi: [hi])
     if ctx.want("corrupt"):
         progs = [{"comp": {"tracks": [_comp_track(j) for j in js]}} for js in ((0,), (1, 2), (3, 4, 5), (5,))]
         ctx.bound("corrupt", "4 written files x (4 header tag bytes + every track tag byte) x {0x00, 0xFF, orig^1} + formats {3, 255, 65535}")
